@@ -220,6 +220,21 @@ pub fn cell_to_children(index: u64, child_resolution: Option<i32>) -> Result<Vec
         4_usize.pow(resolution_diff as u32)
     };
     let mut children = Vec::new();
+    // The fan-out can exceed what the machine can hold (5 * 4^20 cells from a base cell):
+    // report that instead of aborting the process in the allocator half way through.
+    let total = new_origin_ids
+        .len()
+        .checked_mul(new_segments.len())
+        .and_then(|n| n.checked_mul(children_count));
+    match total {
+        Some(total) if children.try_reserve_exact(total).is_ok() => {}
+        _ => {
+            return Err(format!(
+                "Cannot allocate the children of cell {} at resolution {}",
+                index, new_resolution
+            ))
+        }
+    }
     let shifted_s = if resolution_diff > 0 {
         s << (2 * resolution_diff)
     } else {
